@@ -15,6 +15,7 @@
 
 
 #include <sstream>
+#include <algorithm>
 
 using namespace sim;
 using namespace srun;
@@ -104,40 +105,47 @@ struct C04 : Scenario {
             DeckOpts dopt;
             std::set<int> touched;
             // The exception clause ("keywords whose meaning is defined per report step ... see step n as already closed") is part of the
-            // reference, not a mask: (a) a well that stood SHUT with all connections shut when the application began gets an explicit
-            // well-level WELOPEN SHUT in front of the inlined keywords (the automatic shut-in of the closed step has happened);
-            // (b) a well-wide WPIMULT record of the application multiplies onto the factor the closed step already applied, i.e. its
-            // inlined factor is closed[w] * f (within one pass only the last well-wide record of a well counts - that rule itself is kept).
-            std::map<int, std::map<std::string, double>> closed;   // step -> well -> factor of the pass(es) already closed
+            // reference, not a mask.  At the point where a pass over block n closed at run time (the block itself, then every earlier
+            // application at n) the reference deck makes the deferred per-step effects explicit:
+            // (a) the well-wide WPIMULT records of the closed pass (only the last one per well counts - that rule is kept) are taken out
+            //     and written in the immediately-applied form (I J of the well's column) at the close point;
+            // (b) a well that stood SHUT with all connections shut when the application began gets an explicit well-level WELOPEN SHUT
+            //     (the automatic shut-in of the closed pass has happened).
+            Model m2 = m;
             auto global_wpimult = [](const Kw& k, const std::vector<std::string>& rec) { return k.name == "WPIMULT" && k.raw.empty() && rec.size() == 2; };
             auto unq = [](std::string t) { if (t.size() >= 2 && t.front() == '\'' && t.back() == '\'') t = t.substr(1, t.size() - 2); return t; };
+            // strips the well-wide WPIMULT records out of `kws`; returns (well, factor text) of the last one per well, in well order
+            auto take_global = [&](std::vector<Kw>& kws) {
+                std::map<std::string, std::string> last;
+                for (auto& k : kws) { std::vector<std::vector<std::string>> keep; bool any = false; for (auto& rec : k.recs) if (global_wpimult(k, rec)) { last[unq(rec[0])] = rec[1]; any = true; } else keep.push_back(rec); if (any) k.recs = keep; }
+                kws.erase(std::remove_if(kws.begin(), kws.end(), [](const Kw& k) { return k.name == "WPIMULT" && k.raw.empty() && k.recs.empty(); }), kws.end());
+                return last;
+            };
+            auto immediate = [&](const std::map<std::string, std::string>& last) {
+                Kw k; k.name = "WPIMULT";
+                for (auto& kv : last) for (auto& wd : m.wells) if (wd.name == kv.first) k.recs.push_back({"'" + wd.name + "'", kv.second, std::to_string(wd.i), std::to_string(wd.j)});
+                return k;
+            };
             long n_shut_ins = 0, n_wpi_acc = 0;
             const std::string plain = getenv("VERIF_C04_PLAIN_INLINING") ? getenv("VERIF_C04_PLAIN_INLINING") : ""; const bool plain_shut = plain == "1" || plain == "shut", plain_wpi = plain == "1" || plain == "wpimult";   // development aid: reference without the exception clause (shows that the clause is reached)
+            std::set<int> closed_blocks;
             for (const auto& f : w->firings) {
                 auto it = ix.find(f.action); if (it == ix.end()) continue;
-                if (!closed.count(f.step)) {
-                    auto& c = closed[f.step];
-                    const std::vector<Kw>* blk = f.step == 0 ? &m.block0 : f.step < m.nsteps() ? &m.steps[static_cast<size_t>(f.step)].kws : nullptr;
-                    if (blk) for (const auto& k : *blk) for (const auto& rec : k.recs) if (global_wpimult(k, rec)) c[unq(rec[0])] = std::stod(rec[1]);
+                if (!closed_blocks.count(f.step) && !plain_wpi) {
+                    closed_blocks.insert(f.step);
+                    std::vector<Kw>* blk = f.step == 0 ? &m2.block0 : f.step < m2.nsteps() ? &m2.steps[static_cast<size_t>(f.step)].kws : nullptr;
+                    if (blk) { auto k = immediate(take_global(*blk)); if (!k.recs.empty()) { dopt.append_to_block[f.step].push_back(k); n_wpi_acc += static_cast<long>(k.recs.size()); } }
                 }
                 if (!f.shut_closed.empty() && !plain_shut) { Kw sk; sk.name = "WELOPEN"; for (auto& wn : f.shut_closed) sk.recs.push_back({"'" + wn + "'", "'SHUT'"}); dopt.append_to_block[f.step].push_back(sk); n_shut_ins += static_cast<long>(f.shut_closed.size()); }
-                auto& c = closed[f.step];
-                std::map<std::string, double> last;   // last well-wide factor per well inside this application
-                for (auto& k : expand(*it->second, f.wells)) {
-                    Kw k2 = k;
-                    for (auto& rec : k2.recs) if (global_wpimult(k2, rec)) {
-                        const std::string wn = unq(rec[0]); const double fac = std::stod(rec[1]);
-                        last[wn] = fac;
-                        if (c.count(wn) && !plain_wpi) { std::ostringstream os; os.precision(17); os << c[wn] * fac; rec[1] = os.str(); ++n_wpi_acc; }
-                    }
-                    dopt.append_to_block[f.step].push_back(k2);
-                }
-                for (auto& kv : last) c[kv.first] = (c.count(kv.first) ? c[kv.first] : 1.0) * kv.second;
+                auto body = expand(*it->second, f.wells);
+                std::map<std::string, std::string> last; if (!plain_wpi) last = take_global(body);
+                for (auto& k : body) dopt.append_to_block[f.step].push_back(k);
+                { auto k = immediate(last); if (!k.recs.empty()) { dopt.append_to_block[f.step].push_back(k); n_wpi_acc += static_cast<long>(k.recs.size()); } }
                 touched.insert(f.step);
                 sh.str(f.action); sh.u64(static_cast<std::uint64_t>(f.step)); sh.u64(f.wells.size());
             }
             n_shut_ins_total = n_shut_ins; n_wpi_acc_total = n_wpi_acc;
-            const std::string deck_inl = deck_text(m, dopt);
+            const std::string deck_inl = deck_text(m2, dopt);
             if (getenv("VERIF_DUMP_DECK")) fs::spit("/tmp/deckInl.DATA", deck_inl);
             try {
                 Opm::Parser parser;
@@ -164,7 +172,7 @@ struct C04 : Scenario {
             } catch (const std::exception& e) { r.fail("C04.inlined_deck_threw." + msg_key(e.what()), std::string("constructing the schedule of the inlined deck threw: ") + e.what()); }
         }
         r.counters["comparisons"] = compared; r.counters["probe.applications"] = w ? static_cast<long>(w->firings.size()) : 0;
-        r.counters["earlier_state_checks"] = mon.checks; r.counters["probe.closed_step_shut_in_made_explicit"] = n_shut_ins_total; r.counters["probe.wpimult_accumulated_on_closed_step"] = n_wpi_acc_total;
+        r.counters["earlier_state_checks"] = mon.checks; r.counters["probe.closed_step_shut_in_made_explicit"] = n_shut_ins_total; r.counters["probe.wpimult_of_closed_pass_made_immediate"] = n_wpi_acc_total;
         { long q = 0, multi = 0; std::map<int, int> per; if (w) for (auto& f : w->firings) { auto it = ix.find(f.action); if (it != ix.end()) for (auto& k : it->second->body) for (auto& rec : k.recs) for (auto& t : rec) if (t == "'?'") ++q; if (++per[f.step] == 2) ++multi; }
           r.counters["probe.question_mark_records_applied"] = q; r.counters["probe.two_applications_in_one_step"] = multi; }
         r.sim_seconds = w ? w->sim_seconds : 0;
